@@ -240,7 +240,7 @@ func (gs *gates) gidOf(g *gate) int64 {
 }
 
 var parkingPoints = map[string]bool{
-	"bus.send.listener": true, "bus.send.collect": true, "bus.listen.register": true, "bus.stop.lock": true,
+	"bus.send.listener": true, "bus.listener.send.locked": true, "bus.send.collect": true, "bus.listen.register": true, "bus.stop.lock": true,
 }
 
 // ---------------------------------------------------------------- generator entry
